@@ -2,6 +2,7 @@
 from __future__ import annotations
 
 import ast
+import re
 
 from sa import flow
 from sa.model import AnalysisError, dotted, unparse
@@ -395,3 +396,65 @@ def r10f(ctx):
             ctx.bad(cid, merge.module.loc(cond), f"the planner may broadcast the {side} input of a {sorted(extra)} join, which _is_single_partition_broadcast does not allow for a one-partition {side} input ({sorted(single[side])}): every {side} row is emitted once per partition of the other input that has a match")
         else:
             ctx.ok(cid, merge.module.loc(cond), f"{sorted(allowed)} within {sorted(single[side])}")
+
+
+# ---------------------------------------------------------------------------------------------
+# R10g
+# ---------------------------------------------------------------------------------------------
+
+
+@rule(
+    "R10g",
+    ["C10", "C17"],
+    """A SIZE-DERIVED PLANNER DECISION IS HANDED TO THE PHYSICAL NODE, NOT RE-DERIVED THERE: a physical class K produced by L._lower that
+    subclasses L inherits L's planner properties. A property that decides from the partition counts of the inputs
+    (`self.left.npartitions < self.right.npartitions`) gives another answer on K when L._lower wraps those inputs (repartition to the
+    npartitions hint, shuffle) before building K. If K's own methods read such a property, K must override it to return an operand
+    that L._lower passes. BroadcastJoin re-derived broadcast_side after the large input had been repartitioned below the small one:
+    merge(how='left', broadcast=True, npartitions=2) returned 72 rows instead of 24.""",
+)
+def r10g(ctx):
+    from sa.rules.r11 import _physical_twins
+
+    model = ctx.model
+    n = 0
+    for L, K in _physical_twins(model):
+        lw = L.members.get("_lower")
+        # is some input of K wrapped by L._lower?  (an argument of the construction that is not plainly self.<input>)
+        ctor = [c for c in ast.walk(lw.node) if isinstance(c, ast.Call) and isinstance(c.func, ast.Name) and c.func.id == K.name]
+        if not ctor:
+            continue
+        defs = flow.Defs(lw.node)
+        wrapped = False
+        for call in ctor:
+            for a in call.args[:2]:
+                if isinstance(a, ast.Name):
+                    texts = [ast.unparse(d.value) for d in defs.reaching(a.id, call) if d.value is not None]
+                    if any(("(" in t or "_bcast" in t) and not t.startswith("self.") or "_bcast" in t for t in texts):
+                        wrapped = True
+        size_props = []
+        for name, mem in L.members.items():
+            if mem.kind == "attr" or mem.node is None or not isinstance(mem.node, ast.FunctionDef):
+                continue
+            if not any(ast.unparse(d) in ("property", "functools.cached_property", "cached_property") for d in mem.node.decorator_list):
+                continue
+            t = ast.unparse(mem.node)
+            if re.search(r"self\.(left|right|frame)\.npartitions\s*[<>]", t):
+                size_props.append(name)
+        for pname in size_props:
+            own_text = " ".join(ast.unparse(m.node) for nm, m in K.members.items() if m.kind != "attr" and m.node is not None and nm != pname)
+            if f"self.{pname}" not in own_text:
+                continue
+            n += 1
+            cid = f"{K.qual}:{pname}:decided-by:{L.name}"
+            pv = K.provider(pname)
+            overridden = pv is not None and pv.cls is not L and pv.cls.is_sub(L)
+            kparams = set(model.parameters(K)) - {"left", "right", "frame"}
+            reads_operand = overridden and ("operand(" in ast.unparse(pv.node) or any(isinstance(x, ast.Attribute) and isinstance(x.value, ast.Name) and x.value.id == "self" and x.attr in kparams for x in ast.walk(pv.node)))
+            if overridden and reads_operand:
+                ctx.ok(cid, K.loc, f"{pv.cls.qual}.{pname} answers from an operand that {L.name}._lower passes")
+            elif not wrapped:
+                ctx.ok(cid, K.loc, f"{L.name}._lower passes its inputs unwrapped: the inherited decision sees the same partition counts")
+            else:
+                ctx.bad(cid, K.loc, f"{K.qual} reads `self.{pname}` in its own methods but inherits it from {L.qual}, where it compares the partition counts of the inputs; {L.name}._lower repartitions / shuffles those inputs before building {K.name}, so the lowered node can decide differently from the planner (the broadcast side flips when the npartitions hint is below the small side's partition count: wrong join result)")
+    ctx.floor("size-derived planner decisions read by physical twins", n, 1)
